@@ -222,6 +222,8 @@ def vcf_worlds(tier):
                                     for h in (0, 1):
                                         world["reads"].append({"sample": "S1", "chrom": "chrA", "hap": h, "segs": [[a, b, 5, 5]], "n": depth})
                                 yield world, dict(gt_qual_threshold=thr, nopriors=nopriors), None
+                                if depth == 3 and nerr == 0 and thr in (0, 10) and hom in (None, 0):
+                                    yield dict(world, dup=True), dict(gt_qual_threshold=thr, nopriors=nopriors), None
                                 if not nopriors and depth in (1, 3) and nerr < 2 and (T or hom in (None, 0)):
                                     # regularised priors; the prior VCF is judged by the same rules
                                     yield world, dict(gt_qual_threshold=thr, constant=0.2 if thr != 3 else 1.0), None
@@ -283,6 +285,20 @@ def run_vcf(inst):
     try:
         paths = pw.materialize(world, d)
         introduce_errors(world, paths, world.get("errors", 0))
+        if world.get("dup"):
+            # a second record on the coordinate of the first variant with another ALT allele (ID "dup"): the reader keeps
+            # the first record of a coordinate, so this one is not genotyped (uniform GL, no call)
+            pv = synth.parse_vcf(paths["vcf"])
+            lines = list(pv["header"]) + ["\t".join(["#CHROM", "POS", "ID", "REF", "ALT", "QUAL", "FILTER", "INFO", "FORMAT"] + pv["samples"])]
+            for ri, rec in enumerate(pv["records"]):
+                lines.append(rec["line"])
+                if ri == 0:
+                    t = rec["line"].split("\t")
+                    t[2] = "dup"
+                    t[4] = [b for b in "ACGT" if b != t[3] and b != t[4]][0]
+                    lines.append("\t".join(t))
+            with open(paths["vcf"], "w") as f:
+                f.write("\n".join(lines) + "\n")
         kw = dict(opts)
         if trios:
             kw["ped"] = synth.write_ped(os.path.join(d, "fam.ped"), trios)
@@ -305,6 +321,12 @@ def run_vcf(inst):
             for call in rec["calls"]:
                 n += 1
                 gl = call.get("GL")
+                if rec["id"] == "dup":
+                    gt_, _ = synth.gt_parse(call.get("GT"))
+                    gls_ = [float(x) for x in gl.split(",")] if gl not in (None, ".") else []
+                    if (gt_ is not None and None not in gt_) or len(gls_) != 3 or max(gls_) - min(gls_) > 1e-3:
+                        viols.append(_vw("not-genotyped-record", f"{which}{rec['pos']} (second record on that coordinate, ALT {rec['alt']}): call {call} although the record was not genotyped", inst))
+                    continue
                 if gl in (None, "."):
                     viols.append(_vw("gl-missing", f"{rec['pos']}: no GL in {call}", inst))
                     continue
